@@ -17,24 +17,24 @@ var Shapes = []Shape{
 	{"findmode-prefix", []string{`(?i)aab`, `(?i)abab`, `(?i)aaab`, `(?i)aba!`, `(?i)a-a-b`, `abc.*`, `(?i)abc\d`, `abc|abd|xyz`, `abab`, `aab`, `abcab`, `éa`, `ab|cd`, `abc|abd`, `(?i)ab|cd`, `aa|ab|ba`}},
 	{"findmode-set", []string{`[ab]c`, `.b[cd]`, `..ab`, `[^a]b`, `[a-c]x`, `\d[ab]`, `[ab][cd][ab]`, `a[bc]d`, `\w\d`, `(?i)[ab]c`}},
 	{"findmode-literalafterloop", []string{`\w+@x`, `[a-c]*:d`, `a*b`, `[ab]*c`, `\d*x`, `[ab]+cd`}},
-	{"autoatomic", []string{`(?<=abb*)c`, `(?<=ab[b]*)c`, `(?<!abb*)c`, `(?<=(ab)(b*))c`, `(?<=aab*)b`, `(?<=ab*b)c`, `[ab]*([bc]*)d\1$`, `[ab]*([bc]*)\1c`, `a*([ab]*)c\1$`, `[ab]+([bc]*)d\1$`, `[ab]*?([bc]*)d\1$`, `\w*(\d*)-\1$`, `[^a]*([ab]*)c\1$`, `a*b`, `a*a`, `a*[^a]`, `a*[ab]`, `[ab]*c`, `[ab]*b`, `a*$`, `a*\b`, `\w*\b`, `\d+\b`, `a*b*c`, `a*b*a`, `a*?b`, `a*?b*`,
+	{"autoatomic", []string{`a*(?:bc)?a`, `(a*)(bc)?(a)`, `\d*(?:,\d\d)*\d`, `a*?(?:bc)?a`, `[ab]*(?:cd)*b`, `a*(?:bc)*?a`, `(?m)a\n*$`, `(?m)\n+$`, `(?m)b\n?$`, `(?m)\n*$b`, `(?<=abb*)c`, `(?<=ab[b]*)c`, `(?<!abb*)c`, `(?<=(ab)(b*))c`, `(?<=aab*)b`, `(?<=ab*b)c`, `[ab]*([bc]*)d\1$`, `[ab]*([bc]*)\1c`, `a*([ab]*)c\1$`, `[ab]+([bc]*)d\1$`, `[ab]*?([bc]*)d\1$`, `\w*(\d*)-\1$`, `[^a]*([ab]*)c\1$`, `a*b`, `a*a`, `a*[^a]`, `a*[ab]`, `[ab]*c`, `[ab]*b`, `a*$`, `a*\b`, `\w*\b`, `\d+\b`, `a*b*c`, `a*b*a`, `a*?b`, `a*?b*`,
 		`(a*b)*`, `(?:a+[b])*`, `(?:a+[ab])*`, `x(?:a*|b)c`, `a*(?=b)`, `a*(?<=b)c`, `(?i)a*B`, `a+b+`, `\w+\d`, `\d+\w`, `[ab]+[bc]`, `a?b`, `a?a`, `(?:ab)*a`, `(?:ab)*c`}},
 	{"endbacktrack", []string{`(?:a[ab]?){2}`, `(ab|abc){2}`, `(?:ab*){2}`, `(?>(?:a[ab]?){2})c`, `(?=(?:a[ab]*){2})\w+`, `(?:a[ab]?){2,}?`, `(?!(?:a[ab]?){2})a+`, `(\w+\d*){2}`, `(?:a[ab]?){3}`, `ab*`, `a(?:b|c*)`, `(?:ab*)*`, `(ab*?)+?`, `(?=ab*)a`, `(?>(?>a*))`, `(?(a)b*|c*)`, `(?:a|b*)`, `(?>a|ab)c`, `(?>ab|a)b`}},
 	{"alternation", []string{`abc|abd`, `ab|ac|ad|b`, `a|b|cd|e`, `\w1|\w2|\d3`, `(?>hi|there|hello)x`, `(?>a||b)`, `ab|cd||ef`, `ab|(?!)|cd`, `[ab]x|[ab]y`,
 		`a|ab`, `ab|a`, `(a|ab)(c|bcd)(d*)`, `(?>abc|abd|x)e`, `(?:a|b)c|(?:a|b)d`, `ax|ay|bz`}},
 	{"coalesce", []string{`a*a`, `a+a*`, `aa*?`, `a*?a*?`, `[ab][ab]*`, `a{2,3}a{1,2}`, `(?>a*)a+`, `a+ab`, `.*.`, `aa+`, `a*a*`, `a?a?`, `a{2}a{2}`, `[ab]*[ab]`, `a+?a`}},
-	{"opcodes", []string{`(?:ab){2,3}`, `(?:ab){2,}?`, `(?:a|ab){1,2}?c`, `(a)?(?(1)b|c)`, `(?(?=a)ab|cd)`, `(a|b)\1`, `(?<n>a)\k<n>`, `(a)|\1b`, `(?<=(a)b)c`,
+	{"opcodes", []string{`(a)?(?(1)[ab]\w|c)`, `(?(?=a)a\w|\wd)`, `(a)?b(?<=(?(1)a\w|\wb))`, `(?<=(?(?=\d)a\d|b))c`, `(a)?\w\w(?<=(?(1)a\w|bb))`, `(?:ab){2,3}`, `(?:ab){2,}?`, `(?:a|ab){1,2}?c`, `(a)?(?(1)b|c)`, `(?(?=a)ab|cd)`, `(a|b)\1`, `(?<n>a)\k<n>`, `(a)|\1b`, `(?<=(a)b)c`,
 		`(a+)\1`, `(?:a(b))*`, `((a)|(b))*c`, `(a)(?!b)`, `(?<!a)b`, `(?<=a)b`, `(?<=ab)c`, `(?<!ab)c`, `(?=(a))ab`, `(?!a)\w`, `(a)*`, `(a|b)+`, `(?:(a)|b)*`,
 		`(?:ab)+`, `(?:ab)+?c`, `(?:a|b)*?c`, `(ab){2}`, `(?:ab){0,2}c`, `(a)(b)?\2`, `(a)?(?(1)a|b)c`}},
 	{"stackdeep", []string{`a*b*c*d*`, `a+b+c+d+`, `x(?<=a*b*c*x)`, `[ab]*[bc]*[cd]*`, `a*?b*?c*?d`, `(?<=a+b+)c`, `\w*\d*a*b*`}},
 	{"stacklimit", []string{`(?:a|b|c|d)*e`, `((a)|(b))*c`, `(?:a?){3}a{3}`, `(a*)*b`, `(a|b)*c`, `(?:a*a*)*b`}},
 	{"zerowidth", []string{`a*`, `\b`, `(?=a)`, `\G`, `\Ga*`, `(?<=a)`, `^|$`, `a*?`, `(?:)`, `$`, `a?`, `(?m)^`, `(?m)$`, `\B`, `b*|a`, `(a)?`, `\Ga`, `(?<=\Ga)`, `a|`, `(?!a)`, `\b|a`}},
 	{"anchors", []string{`^a`, `a$`, `(?m)^a`, `(?m)a$`, `\Aa`, `a\Z`, `a\z`, `\ba`, `a\b`, `\Ba`, `a\B`, `\Ga`, `^$`, `(?m)^$`, `a$\n`, `a\Z\n`, `(?s)a.$`}},
-	{"classes", []string{`[ab]`, `[^ab]`, `\w`, `\W`, `\d`, `\D`, `\s`, `\S`, `[a-c\d]`, `[^\w]`, `\p{Lu}`, `\P{Lu}`, `[\p{Ll}x]`, `.`, `(?s).`, `[\n]`, `[^\n]`, `\p{Greek}`}},
+	{"classes", []string{`[A-C]x`, `[\p{Lu}]y`, `x[B]`, `[\p{Ll}]+`, `[^A-C]x`, `[ab]`, `[^ab]`, `\w`, `\W`, `\d`, `\D`, `\s`, `\S`, `[a-c\d]`, `[^\w]`, `\p{Lu}`, `\P{Lu}`, `[\p{Ll}x]`, `.`, `(?s).`, `[\n]`, `[^\n]`, `\p{Greek}`}},
 	{"case", []string{`(?i)a`, `(?i)[a-c]`, `(?i)[^a]`, `(?i)abc`, `(?i)(a)\1`, `(?i)k`, `(?i)é`, `(?i)σ`, `(?i)[α-γ]`, `(?i)ж`, `(?i)a*B`, `(?i)ab|cd`, `(?i)\x41`, `(?i)[A-Z]b`,
 		`(?i)[\s\S-[a]]`, `(?i)[\w\W-[k]]`, `(?i)[^x-[a]]`, `(?i)[a-z-[b]]`, `(?i)[\d\D-[A-C]]`, `(?i)[\w-[a-c]]x`, `(?i)[^a-[b]]`, `(?i)[\x00-\x{10FFFF}-[é]]`, `(?i)[a-c-[b-[B]]]`}},
 	{"groups", []string{`(a)(?<x>b)(c)`, `(?<x>a)|(?<x>b)`, `(?<x>a)(b)`, `(a)(?<y>b)(?<x>c)`, `(?n)(a)(?<x>b)`, `(?<x>a)\k<x>`, `((a)(b))`, `(a(b(c)))`}},
-	{"lookaround-lead", []string{`((?<=ab))\w*`, `(?>(?<=a))\w*`, `((?<=[ab]))\w*`, `(?<n>(?<=a))b*`, `((?=ab))\w*`, `((?<!a))\w+`, `(?>(?=a))\w+`}},
+	{"lookaround-lead", []string{`(?:(?=[ab])..)?\dx`, `(?:(?=a)a)?b*`, `(?:(?=[ab])\w)*c`, `(?:(?=[-+])[-+])?\d*`, `(?:(?=ab)..)??\dx`, `((?<=ab))\w*`, `(?>(?<=a))\w*`, `((?<=[ab]))\w*`, `(?<n>(?<=a))b*`, `((?=ab))\w*`, `((?<!a))\w+`, `(?>(?=a))\w+`}},
 	{"balancing", []string{`(?<o>a)+(?<-o>b)+`, `(?:(?<o>a)|(?<-o>b))+`, `(?<o>a)+(?<-o>b)?`, `(?:(?<o>a)|(?<x-o>b))+`, `(?<o>a)(?<-o>b)(?<o>c)`}},
 	{"options", []string{`(?n:(?i)a)(b)`, `(?-n:(?i)(a))(b)`, `(?x:(?i) a )(b)`, `(?n:(?m)^a)(b)(c)`, `(?i:(?n)(a)b)(c)`, `((?n)(a)(?-n)(b))(c)`, `(?n:a(?-n:(b))c)(a)`, `(?s:(?i)a.)(b)`, `(?x: a (?-x: b)c )(d)`, `(?n)(a)(?-n)(b)`, `(?i)a(?-i)b`, `a(?i)b`, `(?i:a)b`, `(?s).(?-s).`, `(?m)^a(?-m)$`, `(?i)(?:a(?-i)b)c`, `(?x) a b # c`, `(?x)a\ b`, `(?n)(a)(b)`, `(?i:a|B)c`, `a(?i:b)c`}},
 }
